@@ -84,7 +84,7 @@ package routing
 //@ extern config.NewFileSystemOperation
 //@   modifies nothing
 //@   allocates FileSystemOperation, FileSystemBackUp, map
-//@   ensures result != nil && !old(allocated(result))
+//@   ensures result != nil && !old(allocated(result)) && tracksAll(result)
 // reloading the flows (validation, new stream, metrics) may fail or succeed; it does not touch the managed files
 //@ extern HandlingDataManager.reloadFlows
 //@   modifies allof(HandlingDataManager.stream), allof(HandlingDataManager.flowValidator), now
